@@ -315,6 +315,30 @@ seed("c06-size-64bit", "C06", "R-size-param", "conn.go",
 				c.writeResponse(501, EnhancedCode{5, 5, 4}, "Unable to parse SIZE as an integer")""", "SIZE >= 2^63 wraps negative")
 seed("c12-authallowed-no-tlsconfig", "C12", "R-authallowed-def", "conn.go",
 "	return isTLS || c.server.AllowInsecureAuth", "	return isTLS || c.server.AllowInsecureAuth || c.server.TLSConfig == nil", "AUTH offered in plaintext when TLS is not configured")
+seed("c11-args-cut", "C11", "R-args-single-equals", "parse.go",
+"""		m := strings.Split(arg, "=")
+		switch len(m) {
+		case 2:
+			argMap[strings.ToUpper(m[0])] = m[1]
+		case 1:
+			argMap[strings.ToUpper(m[0])] = ""
+		default:
+			return nil, fmt.Errorf("failed to parse arg string: %q", arg)
+		}""", """		k, v, _ := strings.Cut(arg, "=")
+		if k == "" {
+			return nil, fmt.Errorf("failed to parse arg string: %q", arg)
+		}
+		argMap[strings.ToUpper(k)] = v""", "raw '=' inside a parameter value accepted")
+seed("c14-format-string", "C14", "R-render-verbatim", "client.go",
+"""	_, _, err := c.cmd(250, "%s", sb.String())""", """	_, _, err := c.cmd(250, sb.String())""", "rendered line used as printf format")
+seed("c15-format-string", "C15", "R-line-taint", "client.go",
+"""	if _, _, err := c.cmd(25, "%s", sb.String()); err != nil {""", """	if _, _, err := c.cmd(25, sb.String()); err != nil {""", "rendered line used as printf format")
+seed("c17-enhcode-four-parts", "C17", "R-enhcode-parse", "client.go",
+"""	if len(parts) != 3 {""", """	if len(parts) < 3 {""", "IPv4-looking token parsed as an enhanced code")
+seed("c19-guard-on-other-string", "C19", "R-const-index-guarded", "parse.go",
+"""	l := len(line)
+	switch {""", """	l := len(strings.ToUpper(line))
+	switch {""", "length guard taken on the upper-cased copy")
 seed("c12-requiretls-plain", "C12", "R-caps-table", "conn.go",
 "if _, isTLS := c.TLSConnectionState(); isTLS && c.server.EnableREQUIRETLS {", "if c.server.EnableREQUIRETLS {", "REQUIRETLS advertised in plaintext")
 seed("c12-size-value", "C12", "R-caps-table", "conn.go",
